@@ -16,7 +16,8 @@ EXPLANATION = (
     'decision of every text function over a grid of (text length, pattern length, position, count) realised by unary strings: '
     'positions < 1 and negative counts must give an Excel error, every valid combination must not (a guard may not reject a '
     'feasible search); (C17.3) numeric parameters are coerced (shares C08.1) and the text form of a number/boolean is plain str() '
-    'of its value (no format spec, no rounding); (C17.4) simple maps: UPPER/LOWER/LEN/EXACT/TRIM/CONCATENATE shapes.')
+    'of its value (no format spec, no rounding); (C17.4) simple maps: UPPER/LOWER/LEN/EXACT/TRIM/CONCATENATE shapes.'
+    ' (C17.5) text constants reach the functions with exactly their characters (shared with C02.10); (C17.1) one obligation per table row.')
 NOT_DECIDED = 'the algebraic identities over all texts; the exact TRIM specification'
 TRUSTED = ['Python slice clipping semantics']
 
